@@ -142,6 +142,8 @@ def check_links(out, secs, tpl, host, base, mode):
                     rest = t0[len(cur_grep):].strip(":-= ")
                     if rest.isdigit() and m.groupdict().get("line") not in (None, rest):
                         return "link wrapping %r points at line %r" % (t0, m.group("line")), nlinks
+                    if not rest and m.groupdict().get("line") == "0":
+                        return "link wrapping the path %r alone points at line 0" % t0, nlinks
                 if norm(path) != norm(posixpath.join(base, cur_grep or "")):
                     return ("file link points at %r, the hit's file is %r" % (path, cur_grep)), nlinks
             elif mode == "diff" and secs:
